@@ -55,6 +55,8 @@ struct Res {
     bool pack = false;
     bool nested = false;               // a pack that contains a pack (possibly inside a maybe) instead of being flat
     std::string weird;                 // type of the first element that is neither an array-like nor a pack
+    int foreign = -1;                  // index of the first pack element that points to an object which is not one of the case's operands
+    const std::vector<const void*>* known = nullptr;   // addresses of the case's operand arrays (when given, other pointers are not dereferenced)
     std::vector<Obs> items;
     std::vector<const void*> addr;     // address of the array for items that are passed-through operands (pointers), else nullptr
     uint64_t hash() const { uint64_t h = pack ? 77 : 79; for (auto& o : items) h = nmc::mix(h * 1099511628211ULL + o.hash()); return h; }
@@ -68,7 +70,12 @@ template <class T> constexpr bool is_pack_v = is_std_tuple<T>::value || (meta::i
 template <class T> inline std::string type_of() { int st = 0; char* d = abi::__cxa_demangle(typeid(T).name(), nullptr, nullptr, &st); std::string r = d ? d : typeid(T).name(); free(d); if (r.size() > 160) r = r.substr(0, 160) + "..."; return r; }
 template <class R> inline void observe_into(Res& x, const R& r, int depth);
 template <class E> inline void observe_item(Res& r, const E& e, int depth) {
-    if constexpr (std::is_pointer_v<E>) { r.items.push_back(nmc::observe(*e)); r.addr.push_back((const void*)e); }
+    if constexpr (std::is_pointer_v<E>) {
+        if (r.known && std::find(r.known->begin(), r.known->end(), (const void*)e) == r.known->end()) {   // a pointer into nowhere (e.g. to a destroyed temporary copy): never dereferenced
+            if (r.foreign < 0) r.foreign = (int)r.items.size();
+            Obs o; o.has = false; r.items.push_back(o); r.addr.push_back((const void*)e);
+        } else { r.items.push_back(nmc::observe(*e)); r.addr.push_back((const void*)e); }
+    }
     else if constexpr (meta::is_maybe_v<E>) { if (!nm::has_value(e)) { Obs o; o.has = false; r.items.push_back(o); r.addr.push_back(nullptr); } else observe_item(r, *e, depth); }
     else if constexpr (is_pack_v<E>) { if (depth > 0) r.nested = true; observe_into(r, e, depth + 1); }
     else if constexpr (meta::is_num_v<E> || meta::is_ndarray_v<E> || meta::is_view_v<E> || meta::is_either_v<E>) { r.items.push_back(nmc::observe(e)); r.addr.push_back(nullptr); }
@@ -78,9 +85,9 @@ template <class R> inline void observe_into(Res& x, const R& r, int depth) {
     if constexpr (is_std_tuple<R>::value) std::apply([&](const auto&... e) { (observe_item(x, e, depth), ...); }, r);
     else { constexpr auto N = meta::len_v<R>; meta::template_for<N>([&](auto i) { observe_item(x, nm::get<decltype(i)::value>(r), depth); }); }
 }
-template <class R> inline Res observe_any(const R& r) {
-    Res x;
-    if constexpr (meta::is_maybe_v<R>) { if (!nm::has_value(r)) { Obs o; o.has = false; x.items.push_back(o); x.addr.push_back(nullptr); return x; } return observe_any(*r); }
+template <class R> inline Res observe_any(const R& r, const std::vector<const void*>* known = nullptr) {
+    Res x; x.known = known;
+    if constexpr (meta::is_maybe_v<R>) { if (!nm::has_value(r)) { Obs o; o.has = false; x.items.push_back(o); x.addr.push_back(nullptr); return x; } return observe_any(*r, known); }
     else if constexpr (is_pack_v<R>) { observe_into(x, r, 1); x.pack = x.items.size() != 1; return x; }
     else { observe_item(x, r, 0); return x; }
 }
@@ -98,6 +105,7 @@ inline std::string diff_obs(const Obs& got, const Obs& want) {
 }
 inline std::string diff_res(const Res& got, const Res& want) {
     if (!got.weird.empty()) return "result contains an object that is neither an array nor an operand pack: " + got.weird + " (direct evaluation: " + want.str() + ")";
+    if (got.foreign >= 0) return "pack element " + std::to_string(got.foreign) + " is a pointer to an object that is none of the operands passed to the call (a dangling pointer to a temporary copy; not dereferenced); direct evaluation: " + want.str();
     if (got.nested) return "result is a nested operand pack (a pack inside a pack), the direct evaluation gives the flat pack " + want.str();
     if (got.items.size() == 1 && want.items.size() == 1 && !got.items[0].has && !want.items[0].has) return "";
     if (got.pack != want.pack || got.items.size() != want.items.size()) return "result is " + std::string(got.pack ? "a pack of " : "a single value (") + std::to_string(got.items.size()) + "), expected " + (want.pack ? "a pack of " : "a single value (") + std::to_string(want.items.size()) + ")";
@@ -336,7 +344,8 @@ template <class... Ls> inline Outcome run_chain(const Case& c) {
         done = true;
         const auto comp = compose<P>(fs);
         const auto r = call_all(comp, ops, std::make_index_sequence<(size_t)NEED>{});
-        const Res got = observe_any(r);
+        std::vector<const void*> known; for (auto& o : ops) known.push_back((const void*)&o);
+        const Res got = observe_any(r, &known);
         out = verdict(got, want, nontriv, std::string(paren_name(N, P)));
     });
     if (!done) nmc::die("composition case: unknown parenthesisation");
@@ -500,12 +509,13 @@ template <class... Ls> constexpr bool chain_compiles() {
 }
 
 // all chains of length N over an alphabet std::tuple<Ls...>; a unit owns the chains whose RIGHTMOST letter has index SLICE (or all: SLICE < 0)
-template <class Alphabet, int N, int SLICE> struct chains {
+// and, if SUB >= 0, whose second letter from the right has index SUB
+template <class Alphabet, int N, int SLICE, int SUB = -1> struct chains {
     static constexpr long A = (long)std::tuple_size_v<Alphabet>;
     static constexpr long ipow(long b, int e) { long r = 1; while (e-- > 0) r *= b; return r; }
-    static constexpr long COUNT = SLICE < 0 ? ipow(A, N) : ipow(A, N - 1);
+    static constexpr long COUNT = SLICE < 0 ? ipow(A, N) : (SUB < 0 ? ipow(A, N - 1) : ipow(A, N - 2));
     // chain number J (0 <= J < COUNT) -> digit of position I (0 = leftmost letter)
-    static constexpr long full_index(long j) { return SLICE < 0 ? j : j * A + SLICE; }
+    static constexpr long full_index(long j) { return SLICE < 0 ? j : (SUB < 0 ? j * A + SLICE : (j * A + SUB) * A + SLICE); }
     static constexpr long digit(long j, int i) { long x = full_index(j); for (int k = N - 1; k > i; k--) x /= A; return x % A; }
     template <long J, size_t... I> static constexpr bool compiles_j(std::index_sequence<I...>) { return chain_compiles<std::tuple_element_t<(size_t)digit(J, (int)I), Alphabet>...>(); }
     template <long J, size_t... I> static Outcome run_j(const Case& c, std::index_sequence<I...>) {
@@ -525,10 +535,11 @@ template <class Alphabet, int N, int SLICE> struct chains {
     }
     static Outcome run(const Case& c) { return dispatch(c, c.op.substr(4), std::make_index_sequence<(size_t)COUNT>{}); }
     static void enumerate(bool thorough, const nmc::Sink& emit) {
+        long n_acc = 0; for (long j = 0; j < COUNT; j++) n_acc += accepted(j);
+        nmc::count_max("chains_instantiated", n_acc); nmc::count_max("chains_rejected_by_compiler", COUNT - n_acc);
         for (long j = 0; j < COUNT; j++) {
             std::string code = code_of(j);
-            if (!accepted(j)) { nmc::count("chains_rejected_by_compiler"); continue; }
-            nmc::count("chains");
+            if (!accepted(j)) continue;
             enumerate_chain(code, thorough, [&](const std::vector<L>& operands, const std::vector<L>& attrs) {
                 for (int p = 0; p < n_parens(N); p++) { Case c("cmp:" + code); c.arg((long)p); for (auto& s : operands) c.arg(s); for (auto& a : attrs) c.arg(a); emit(c); }
             });
